@@ -76,6 +76,8 @@ class Machine:
         if v[0] == "opaque":
             return ("opaque",)
         if p == "*":
+            if v[0] == "closure_env":
+                return v  # a closure called through &mut self
             if v[0] != "ref":
                 raise Unsupported("deref of " + str(v[0]))
             t = v[1]
@@ -110,6 +112,10 @@ class Machine:
             if v[0] == "cf":
                 return v[2]
             if v[0] == "result":
+                return v[1]
+            if v[0] == "option":
+                if v[1] is None:
+                    raise Unsupported("payload of None")
                 return v[1]
             if v[0] in ("cf_break", "result_err"):
                 return ("opaque",)
@@ -313,6 +319,12 @@ class Machine:
                 self.state = St("None", {})
                 return ("st", old)
             raise Unsupported("mem::take of " + str(args[0]))
+        if path == "std::mem::replace":
+            if args[0] == ("ref", "state") and args[1][0] == "st":
+                old = self.state
+                self.state = args[1][1]
+                return ("st", old)
+            raise Unsupported("mem::replace of %s with %s" % (args[0], args[1][0]))
         if name == "branch":
             v = args[0]
             if v[0] == "result":
